@@ -58,6 +58,7 @@ def check(m, run):
     ag5(m, run)
     ud1(m, run)
     ud2(m, run)
+    c16.sample_count_getters(m, run)
     n = ra.ax1_helper_calls(m, run, [fi for fi in m.funcs.values() if fi.mod in ('evaluators', 'helpers', '_operations')])
     run.floor('AX1.helper-call-one-axis', 19, 'per-direction helper calls in evaluators/helpers/_operations')
     from .. import skel_drivers
